@@ -1,10 +1,12 @@
 import Driver.Sess
 import Driver.Field
+import Driver.QParser
 import Driver.Widcode
 open Driver
 
 def sessions : List (String × Sess) := [
   ("field", FieldS.sess),
+  ("qparser", QParserS.sess),
   ("widcode", WidcodeS.sess)
 ]
 
